@@ -20,7 +20,18 @@ Definition durable (d : dstate) (r : N) : Prop :=
 Lemma durable_written d r : durable d r -> written d r.
 Proof. intros [v [i [H1 [H2 _]]]]; exists v, i; auto. Qed.
 
-Record dinv (d : dstate) : Prop := mk_dinv {
+Ltac brk :=
+  match goal with
+  | |- context [match ?x with _ => _ end] =>
+      lazymatch x with
+      | context [match _ with _ => _ end] => fail
+      | _ => destruct x eqn:?
+      end
+  end.
+
+(* [E]: the roots whose loss is excused — the targets of an operator's explicit RemoveSector
+   (empty for the runs of c02_readable_partial, which contain none) *)
+Record dinvE (E : N -> Prop) (d : dstate) : Prop := mk_dinv {
   d_inv : inv (md d);
   d_known : forall r v i, slot_at (md d) v i = Some (Some r) -> mem r (known (md d)) = true;
   d_tids : NoDup (map fst (thr d));
@@ -32,34 +43,15 @@ Record dinv (d : dstate) : Prop := mk_dinv {
   (* the cache never holds other bytes for a sector than the ones written for it *)
   d_cache : forall r c, cget r (cache d) = Some c -> written d r -> c = r;
   (* every referenced sector is durably written *)
-  d_refs : forall r, refd (md d) r = true -> durable d r }.
+  d_refs : forall r, refd (md d) r = true -> ~ E r -> durable d r }.
+Arguments d_inv {E} d _.
+Arguments d_known {E} d _.
+Arguments d_tids {E} d _.
+Arguments d_thr {E} d _.
+Arguments d_troots {E} d _.
+Arguments d_cache {E} d _.
+Arguments d_refs {E} d _.
 
-Lemma dinv_init n : dinv (dinit n).
-Proof.
-  constructor.
-  - apply inv_init.
-  - intros r v i H; discriminate.
-  - constructor.
-  - intros t r v i H; discriminate.
-  - intros t t' x x' H; discriminate.
-  - intros r c H; discriminate.
-  - intros r H; discriminate.
-Qed.
-
-(* the invariant only looks at the database, the writers, the cache and the file contents *)
-Lemma dinv_same d d' :
-  md d' = md d -> thr d' = thr d -> cache d' = cache d ->
-  (forall v i, content d' v i = content d v i) ->
-  (forall v i, dcontent d' v i = dcontent d v i \/ dcontent d' v i = content d v i) ->
-  dinv d -> dinv d'.
-Proof.
-  intros Em Et Ec Hc Hd [I1 I2 I3 I4 I4' I5 I6].
-  constructor; rewrite ?Em, ?Et, ?Ec; auto.
-  - intros t r v i H. destruct (I4 t r v i H) as [S C]. split; [exact S|]. now rewrite Hc.
-  - intros r c H [v [i [S C]]]. apply (I5 r c H). exists v, i. rewrite Em in S. split; [exact S|]. now rewrite <- Hc.
-  - intros r H. destruct (I6 r H) as [v [i [S [C D]]]]. exists v, i. rewrite Em. split; [exact S|].
-    rewrite Hc. split; [exact C|]. destruct (Hd v i) as [E|E]; rewrite E; auto.
-Qed.
 
 Lemma touch_md r d : md (touch r d) = md d.
 Proof. unfold touch; destruct (mem r (fresh d)); reflexivity. Qed.
@@ -69,12 +61,6 @@ Lemma touch_cache r d : cache (touch r d) = cache d.
 Proof. unfold touch; destruct (mem r (fresh d)); reflexivity. Qed.
 Lemma touch_files r d : disk (touch r d) = disk d /\ pend (touch r d) = pend d.
 Proof. unfold touch; destruct (mem r (fresh d)); split; reflexivity. Qed.
-
-Lemma dinv_touch r d : dinv d -> dinv (touch r d).
-Proof.
-  apply dinv_same; try (unfold touch; destruct (mem r (fresh d)); reflexivity).
-  intros v i; left. unfold touch; destruct (mem r (fresh d)); reflexivity.
-Qed.
 
 (** * Steps the theorems are about *)
 (* (a) a store call that adds a reference adds it for a durably written sector — what Write
@@ -108,15 +94,6 @@ Proof. intros [H1 H2]. unfold refd. now rewrite H1, H2. Qed.
 
 Lemma same_slots_vols m m' : vols m' = vols m -> same_slots m m'.
 Proof. intros H v i r. unfold slot_at. now rewrite H. Qed.
-
-Ltac brk :=
-  match goal with
-  | |- context [match ?x with _ => _ end] =>
-      lazymatch x with
-      | context [match _ with _ => _ end] => fail
-      | _ => destruct x eqn:?
-      end
-  end.
 
 Lemma slot_at_vins s n v i :
   vget (vid n) (vols s) = None ->
@@ -259,26 +236,6 @@ Proof.
   exists v, i; repeat split; auto; [congruence|]. destruct D'; congruence.
 Qed.
 
-(** * DMeta *)
-Lemma dinv_meta d o : dinv d -> step_ok d (DMeta o) -> dinv (fst (dstep d (DMeta o))).
-Proof.
-  intros I OK. cbn [step_ok dstep] in *. destruct (meta_op o) eqn:M; [|exact I].
-  destruct (step (md d) o) as [m b] eqn:St. cbn [fst md with_md] in *.
-  assert (Em : m = fst (step (md d) o)) by now rewrite St.
-  pose proof (meta_same_slots o (md d) M) as SS. rewrite <- Em in SS.
-  destruct I as [I1 I2 I3 I4 I4' I5 I6].
-  constructor; cbn.
-  - rewrite Em. now apply inv_step.
-  - intros r v i H. apply SS in H. rewrite Em. apply meta_known; eauto.
-  - exact I3.
-  - intros t r v i H. destruct (I4 t r v i H) as [S C]. split; [now apply SS|exact C].
-  - exact I4'.
-  - intros r c H W. apply (I5 r c H). destruct W as [v [i [S C]]]. exists v, i. split; [now apply SS|exact C].
-  - intros r H. destruct (OK r H) as [H'|H'].
-    + eapply durable_transfer; [|apply (I6 r H')]. intros v i S. split; [now apply SS|auto].
-    + eapply durable_transfer; [|exact H']. intros v i S. split; [now apply SS|auto].
-Qed.
-
 (** * DReserve *)
 Lemma reserve_facts r loc s s1 v i :
   inv s -> reserve r loc s = RPlaced s1 v i ->
@@ -301,59 +258,6 @@ Qed.
 Lemma add_known_mem r s q : mem q (known s) = true -> mem q (known (add_known r s)) = true.
 Proof.
   unfold add_known. destruct (mem r (known s)); cbn; [auto|]. intros ->. now rewrite Bool.orb_true_r.
-Qed.
-
-Lemma dinv_reserve d t r loc : dinv d -> step_ok d (DReserve t r loc) -> dinv (fst (dstep d (DReserve t r loc))).
-Proof.
-  intros I OK. cbn [dstep]. unfold dreserve.
-  destruct (alookup t (thr d)) eqn:T; [exact I|].
-  destruct (reserve r loc (md d)) as [| |s1 v i|o|] eqn:R; cbn [fst]; try exact I.
-  - (* exists *) apply dinv_touch. destruct I as [I1 I2 I3 I4 I4' I5 I6]. constructor; cbn.
-    + now apply inv_add_known.
-    + intros q v i H. unfold slot_at in H. rewrite add_known_vols in H. apply add_known_mem. eapply I2; eauto.
-    + exact I3.
-    + intros t' q v i H. destruct (I4 t' q v i H) as [S C]. split; auto. unfold slot_at. now rewrite add_known_vols.
-    + exact I4'.
-    + intros q c H [v [i [S C]]]. apply (I5 q c H). exists v, i; split; auto.
-      cbn [md with_md] in S. unfold slot_at in *. now rewrite add_known_vols in S.
-    + intros q H. unfold refd in H. rewrite add_known_cons, add_known_temps in H.
-      eapply durable_transfer; [|apply (I6 q H)]. intros v i S. split; auto.
-      cbn [md with_md]. unfold slot_at. now rewrite add_known_vols.
-  - (* placed *)
-    apply dinv_touch.
-    destruct I as [I1 I2 I3 I4 I4' I5 I6].
-    destruct (reserve_placed r loc (md d) s1 v i I1 R) as [J1 [F [-> [V [vl [G [S Hv]]]]]]].
-    destruct (reserve_facts r (Some (v, i)) (md d) s1 v i I1 R) as [SR [K1 K2]].
-    cbn in OK.
-    pose proof (slot_at_wr (md d) s1 v i (Some r) 1 vl G Hv) as SA. rewrite S in SA.
-    assert (Hold : forall w j q, slot_at (md d) w j = Some (Some q) -> slot_at s1 w j = Some (Some q)).
-    { intros w j q H. rewrite SA. destruct ((w =? v)%N && (j =? i)%N) eqn:E; [|exact H].
-      apply Bool.andb_true_iff in E as [E1 E2]. apply N.eqb_eq in E1, E2; subst.
-      unfold slot_at in H. rewrite G, S in H. discriminate. }
-    assert (Hnew : forall w j q, slot_at s1 w j = Some (Some q) ->
-                     (w = v /\ j = i /\ q = r) \/ slot_at (md d) w j = Some (Some q)).
-    { intros w j q H. rewrite SA in H. destruct ((w =? v)%N && (j =? i)%N) eqn:E; [|now right].
-      apply Bool.andb_true_iff in E as [E1 E2]. apply N.eqb_eq in E1, E2; subst. injection H as <-. now left. }
-    constructor; cbn.
-    + exact J1.
-    + intros q w j H. apply Hnew in H as [[-> [-> ->]]|H]; [exact K1|]. apply K2. eapply I2; eauto.
-    + constructor; [now apply alookup_none_notin|exact I3].
-    + intros t' q w j H. destruct (t' =? t)%N eqn:E.
-      * injection H as <- <- <-. split; [|exact OK]. rewrite SA, !N.eqb_refl. reflexivity.
-      * destruct (I4 t' q w j H) as [S' C]. split; [now apply Hold|exact C].
-    + intros t1 t2 x1 x2 H1 H2 E.
-      assert (Hnot : forall t' x', alookup t' (thr d) = Some x' -> fst (fst x') <> r).
-      { intros t' [[q w] j] H' Heq. cbn in Heq; subst q. destruct (I4 t' r w j H') as [S' _].
-        exact (slot_at_none_vfind (md d) r I1 F w j S'). }
-      destruct (t1 =? t)%N eqn:E1; destruct (t2 =? t)%N eqn:E2.
-      * apply N.eqb_eq in E1, E2; congruence.
-      * injection H1 as <-. cbn in E. exfalso. eapply Hnot; eauto.
-      * injection H2 as <-. cbn in E. exfalso. eapply Hnot; eauto.
-      * eapply I4'; eauto.
-    + intros q c H [w [j [S' C]]]. apply (I5 q c H).
-      apply Hnew in S' as [[-> [-> ->]]|S']; [contradiction|]. exists w, j; auto.
-    + intros q H. rewrite (refd_same _ _ q SR) in H.
-      eapply durable_transfer; [|apply (I6 q H)]. intros w j S'. split; [now apply Hold|auto].
 Qed.
 
 (** * DWrite *)
@@ -389,61 +293,6 @@ Lemma content_kset d v i c dk w j :
   else match kget w j (pend d) with Some x => x | None => match kget w j dk with Some x => x | None => 0%N end end.
 Proof. unfold content; cbn. destruct ((w =? v)%N && (j =? i)%N); reflexivity. Qed.
 
-Lemma dinv_write d t ok : dinv d -> dinv (fst (dstep d (DWrite t ok))).
-Proof.
-  intros I. cbn [dstep]. unfold dwrite.
-  destruct (alookup t (thr d)) as [[[r v] i]|] eqn:T; [|exact I].
-  destruct I as [I1 I2 I3 I4 I4' I5 I6].
-  destruct (I4 t r v i T) as [St Ct].
-  assert (Hothers : forall t' q w j, alookup t' (aremove t (thr d)) = Some (q, w, j) ->
-            alookup t' (thr d) = Some (q, w, j) /\ q <> r /\ ~ (w = v /\ j = i)).
-  { intros t' q w j H. apply alookup_aremove in H as [Hne H]; [|exact I3]. split; [exact H|].
-    assert (Hq : q <> r).
-    { intros ->. apply Hne. eapply (I4' t' t); eauto. }
-    split; [exact Hq|]. intros [-> ->]. destruct (I4 t' q v i H) as [S' _]. congruence. }
-  destruct (ok && is_some (vget v (vols (md d)))) eqn:OK; cbn [fst].
-  - (* data written *)
-    assert (Hc : forall w j, ~ (w = v /\ j = i) ->
-              content (with_files (with_thr d (aremove t (thr d))) (disk d) (kset v i r (pend d))) w j = content d w j).
-    { intros w j H. unfold content; cbn. destruct ((w =? v)%N && (j =? i)%N) eqn:E; [|reflexivity].
-      apply Bool.andb_true_iff in E as [E1 E2]. apply N.eqb_eq in E1, E2. tauto. }
-    constructor; cbn.
-    + exact I1.
-    + exact I2.
-    + now apply aremove_nodup.
-    + intros t' q w j H. destruct (Hothers t' q w j H) as [H' [Hq Hs]]. destruct (I4 t' q w j H') as [S' C'].
-      split; [exact S'|]. unfold content in *; cbn.
-      destruct ((w =? v)%N && (j =? i)%N) eqn:E; [|exact C'].
-      apply Bool.andb_true_iff in E as [E1 E2]. apply N.eqb_eq in E1, E2. tauto.
-    + intros t1 t2 x1 x2 H1 H2 E. apply alookup_aremove in H1 as [_ H1]; [|exact I3].
-      apply alookup_aremove in H2 as [_ H2]; [|exact I3]. eapply I4'; eauto.
-    + intros q c H [w [j [S' C']]]. apply cget_cadd in H as [[-> ->]|[Hq H]]; [reflexivity|].
-      apply (I5 q c H). exists w, j. split; [exact S'|].
-      cbn in S'. unfold content in *; cbn in C'.
-      destruct ((w =? v)%N && (j =? i)%N) eqn:E; [|exact C'].
-      apply Bool.andb_true_iff in E as [E1 E2]. apply N.eqb_eq in E1, E2; subst. congruence.
-    + intros q H. destruct (I6 q H) as [w [j [S' [C' D']]]]. exists w, j. cbn.
-      assert (Hne : ~ (w = v /\ j = i)). { intros [-> ->]. congruence. }
-      split; [exact S'|]. split; [|exact D'].
-      unfold content in *; cbn. destruct ((w =? v)%N && (j =? i)%N) eqn:E; [|exact C'].
-      apply Bool.andb_true_iff in E as [E1 E2]. apply N.eqb_eq in E1, E2. tauto.
-  - (* failure: rollback *)
-    destruct (rollback r v i (md d)) as [m o] eqn:R. cbn [fst].
-    destruct (rollback_facts r v i (md d) m o I1 St R) as [J1 [SR [K [Hsub Hkeep]]]].
-    constructor; cbn.
-    + exact J1.
-    + intros q w j H. rewrite K. eapply I2. eapply Hsub; eauto.
-    + now apply aremove_nodup.
-    + intros t' q w j H. destruct (Hothers t' q w j H) as [H' [Hq Hs]]. destruct (I4 t' q w j H') as [S' C'].
-      split; [now apply Hkeep|exact C'].
-    + intros t1 t2 x1 x2 H1 H2 E. apply alookup_aremove in H1 as [_ H1]; [|exact I3].
-      apply alookup_aremove in H2 as [_ H2]; [|exact I3]. eapply I4'; eauto.
-    + intros q c H [w [j [S' C']]]. apply (I5 q c H). exists w, j. split; [eapply Hsub; eauto|exact C'].
-    + intros q H. rewrite (refd_same _ _ q SR) in H. destruct (I6 q H) as [w [j [S' [C' D']]]].
-      exists w, j. cbn. split; [|auto]. apply Hkeep; [exact S'|].
-      intros ->. destruct (slot_injective (md d) w j v i r I1 S' St) as [-> ->]. congruence.
-Qed.
-
 (** * DSync, DRead, DResizeCache, DCrash, DRestart *)
 Lemma fold_sync_dcontent l d v i :
   dcontent (fold_left (fun a w => sync_vol w a) l d) v i = dcontent d v i \/
@@ -455,74 +304,9 @@ Proof.
   - right. apply content_sync_vol.
 Qed.
 
-Lemma dinv_sync d : dinv d -> dinv (dsync d).
-Proof.
-  intros [I1 I2 I3 I4 I4' I5 I6]. unfold dsync.
-  constructor; cbn; rewrite ?fold_sync_md, ?fold_sync_thr, ?fold_sync_cache; auto.
-  - intros t r v i H. destruct (I4 t r v i H) as [S C]. split; [exact S|].
-    unfold content in *; cbn. fold (content (fold_left (fun a w => sync_vol w a) (changed d) d) v i).
-    now rewrite fold_sync_content.
-  - intros r c H [v [i [S C]]]. apply (I5 r c H). exists v, i. cbn in S. rewrite fold_sync_md in S.
-    split; [exact S|]. unfold content in C; cbn in C.
-    fold (content (fold_left (fun a w => sync_vol w a) (changed d) d) v i) in C.
-    now rewrite fold_sync_content in C.
-  - intros r H. destruct (I6 r H) as [v [i [S [C D]]]]. exists v, i. cbn. rewrite fold_sync_md.
-    split; [exact S|]. split.
-    + unfold content; cbn. fold (content (fold_left (fun a w => sync_vol w a) (changed d) d) v i).
-      now rewrite fold_sync_content.
-    + unfold dcontent; cbn. fold (dcontent (fold_left (fun a w => sync_vol w a) (changed d) d) v i).
-      destruct (fold_sync_dcontent (changed d) d v i) as [E|E]; rewrite E; auto.
-Qed.
-
 Lemma locate_slot s r v i : inv s -> locate r s = Some (v, i) -> slot_at s v i = Some (Some r).
 Proof.
   intros I. unfold locate. destruct (mem r (known s)); [|discriminate]. intros H. now apply vfind_iff.
-Qed.
-
-Lemma dinv_cache d c' :
-  dinv d -> (forall r c, cget r c' = Some c -> written d r -> c = r) -> dinv (with_cache d c').
-Proof.
-  intros [I1 I2 I3 I4 I4' I5 I6] H. constructor; cbn; auto.
-Qed.
-
-Lemma dinv_read d r fail : dinv d -> dinv (fst (dstep d (DRead r fail))).
-Proof.
-  intros I. cbn [dstep]. unfold dread.
-  destruct (cget r (cache d)) as [c|] eqn:Hc; cbn [fst].
-  - apply dinv_cache; [exact I|]. intros q x H W. apply (d_cache d I q x); [|exact W].
-    cbn in H. destruct (q =? r)%N eqn:E.
-    + apply N.eqb_eq in E; subst. injection H as <-. exact Hc.
-    + apply N.eqb_neq in E. now rewrite cget_cdel_other in H.
-  - destruct (locate r (md d)) as [[v i]|] eqn:L; [|exact I].
-    destruct fail; cbn [fst]; [now apply dinv_touch|]. apply dinv_touch.
-    apply dinv_cache; [exact I|]. intros q x H W.
-    apply cget_cadd in H as [[-> ->]|[Hq H]]; [|apply (d_cache d I q x H W)].
-    destruct W as [w [j [S C]]]. apply locate_slot in L; [|apply (d_inv d I)].
-    destruct (slot_injective (md d) w j v i r (d_inv d I) S L) as [-> ->]. exact C.
-Qed.
-
-Lemma dinv_resize_cache d n : dinv d -> dinv (fst (dstep d (DResizeCache n))).
-Proof.
-  intros [I1 I2 I3 I4 I4' I5 I6]. cbn. constructor; cbn; auto.
-  intros r c H W. apply cget_firstn in H. apply (I5 r c H). exact W.
-Qed.
-
-Lemma dinv_crash d : dinv d -> dinv (dcrash d).
-Proof.
-  intros [I1 I2 I3 I4 I4' I5 I6]. constructor; cbn; auto; try discriminate.
-  - constructor.
-  - intros r H. destruct (I6 r H) as [v [i [S [C D]]]]. exists v, i. cbn.
-    split; [exact S|]. unfold content, dcontent in *; cbn. auto.
-Qed.
-
-Lemma dinv_restart d : dinv d -> dinv (fst (dstep d DRestart)).
-Proof.
-  intros I. cbn [dstep]. destruct (thr d) eqn:T; [|exact I]. cbn [fst].
-  destruct I as [I1 I2 I3 I4 I4' I5 I6]. constructor; cbn; auto; try discriminate.
-  - constructor.
-  - intros r H. destruct (I6 r H) as [v [i [S [C D]]]]. exists v, i. cbn.
-    split; [exact S|]. unfold content, dcontent in *; cbn. rewrite kget_app.
-    destruct (kget v i (pend d)); auto.
 Qed.
 
 (** * DPrune *)
@@ -541,30 +325,6 @@ Lemma in_flight_spec r (l : list (N * (N * N * N))) t v i : alookup t l = Some (
 Proof.
   intros H. apply alookup_in in H. unfold in_flight. apply existsb_exists.
   exists (t, (r, v, i)); split; [exact H|cbn; apply N.eqb_refl].
-Qed.
-
-Lemma dinv_prune d : dinv d -> dinv (fst (dstep d DPrune)).
-Proof.
-  intros I. cbn [dstep]. unfold dprune.
-  set (f := fun r => refd (md d) r || mem r (fresh d) || in_flight r (thr d)).
-  destruct (prune_with_ok f (md d) (d_inv d I)) as [m P]. rewrite P. cbn [dres fst].
-  pose proof (inv_prune_with f (md d) _ (d_inv d I) P) as J1.
-  destruct I as [I1 I2 I3 I4 I4' I5 I6].
-  constructor; cbn [md with_md thr cache].
-  - exact J1.
-  - intros q w j H. rewrite slot_at_pruned in H. cbn.
-    destruct (slot_at (md d) w j) as [[q'|]|] eqn:S; try discriminate.
-    destruct (f q'); [|discriminate]. injection H as <-. eapply I2; eauto.
-  - exact I3.
-  - intros t q w j H. destruct (I4 t q w j H) as [S C]. split; [|exact C].
-    rewrite slot_at_pruned, S. unfold f. rewrite (in_flight_spec q _ t w j H), Bool.orb_true_r. reflexivity.
-  - exact I4'.
-  - intros q c H [w [j [S C]]]. apply (I5 q c H). exists w, j. split; [|exact C].
-    cbn [md with_md] in S. rewrite slot_at_pruned in S. destruct (slot_at (md d) w j) as [[q'|]|]; try discriminate.
-    destruct (f q'); [exact S|discriminate].
-  - intros q H. assert (H' : refd (md d) q = true) by exact H.
-    destruct (I6 q H') as [w [j [S [C D]]]]. exists w, j. split; [|auto].
-    cbn [md with_md]. rewrite slot_at_pruned, S. unfold f. rewrite H'. reflexivity.
 Qed.
 
 (** * DShrinkT, DRemoveT *)
@@ -613,27 +373,6 @@ Proof.
   intros H. unfold content, dcontent; cbn. now rewrite !kget_ktrunc_keep by exact H.
 Qed.
 
-Lemma dinv_shrink d v n : dinv d -> dinv (fst (dstep d (DShrinkT v n))).
-Proof.
-  intros I. cbn [dstep]. unfold dshrink. destruct (shrink v n (md d)) as [m| |] eqn:Sh; cbn [fst]; try exact I.
-  pose proof (inv_shrink v n (md d) m (d_inv d I) Sh) as J1.
-  destruct (shrink_facts v n (md d) m Sh) as [SR [K [Hkeep Hsub]]].
-  destruct I as [I1 I2 I3 I4 I4' I5 I6].
-  constructor; cbn [md with_md with_files thr cache].
-  - exact J1.
-  - intros q w j H. rewrite K. eapply I2. eapply Hsub; eauto.
-  - exact I3.
-  - intros t q w j H. destruct (I4 t q w j H) as [S C]. destruct (Hkeep w j q S) as [S' Hw].
-    split; [exact S'|]. now rewrite (proj1 (content_ktrunc d v n m w j Hw)).
-  - exact I4'.
-  - intros q c H [w [j [S C]]]. apply (I5 q c H). exists w, j.
-    pose proof (Hsub w j q S) as S0. destruct (Hkeep w j q S0) as [_ Hw].
-    split; [exact S0|]. now rewrite (proj1 (content_ktrunc d v n m w j Hw)) in C.
-  - intros q H. rewrite (refd_same _ _ q SR) in H. destruct (I6 q H) as [w [j [S [C D]]]].
-    destruct (Hkeep w j q S) as [S' Hw]. exists w, j. split; [exact S'|].
-    destruct (content_ktrunc d v n m w j Hw) as [E1 E2]. rewrite E1, E2. auto.
-Qed.
-
 Lemma wsum_occ_zero (l : slots) j q : wsum occ1 l = 0%Z -> sget j l <> Some (Some q).
 Proof.
   induction l as [|[k y] t IH]; cbn [wsum sget]; [discriminate|].
@@ -678,32 +417,6 @@ Proof.
     + rewrite vget_vdel_other in H; auto.
 Qed.
 
-Lemma dinv_remove d v force : dinv d -> step_ok d (DRemoveT v force) -> dinv (fst (dstep d (DRemoveT v force))).
-Proof.
-  intros I OK. cbn in OK. subst force. cbn [dstep]. unfold dremove.
-  destruct (remove_vol v false (md d)) as [m| |] eqn:R; cbn [fst]; try exact I.
-  pose proof (inv_remove_vol v false (md d) m (d_inv d I) R) as J1.
-  destruct (remove_facts v (md d) m (d_inv d I) R) as [SR [K [Hkeep Hsub]]].
-  assert (Hc : forall w j, w <> v ->
-     content (with_files (with_md d m) (knot v (disk d)) (knot v (pend d))) w j = content d w j /\
-     dcontent (with_files (with_md d m) (knot v (disk d)) (knot v (pend d))) w j = dcontent d w j).
-  { intros w j Hw. unfold content, dcontent; cbn. now rewrite !kget_knot_other by exact Hw. }
-  destruct I as [I1 I2 I3 I4 I4' I5 I6].
-  constructor; cbn [md with_md with_files thr cache].
-  - exact J1.
-  - intros q w j H. rewrite K. eapply I2. eapply Hsub; eauto.
-  - exact I3.
-  - intros t q w j H. destruct (I4 t q w j H) as [S C]. destruct (Hkeep w j q S) as [S' Hw].
-    split; [exact S'|]. now rewrite (proj1 (Hc w j Hw)).
-  - exact I4'.
-  - intros q c H [w [j [S C]]]. apply (I5 q c H). exists w, j.
-    pose proof (Hsub w j q S) as S0. destruct (Hkeep w j q S0) as [_ Hw].
-    split; [exact S0|]. now rewrite (proj1 (Hc w j Hw)) in C.
-  - intros q H. rewrite (refd_same _ _ q SR) in H. destruct (I6 q H) as [w [j [S [C D]]]].
-    destruct (Hkeep w j q S) as [S' Hw]. exists w, j. split; [exact S'|].
-    destruct (Hc w j Hw) as [E1 E2]. rewrite E1, E2. auto.
-Qed.
-
 (** * DMigrate *)
 Lemma mig_move_slots v idx r to s s' vl tl :
   vget v (vols s) = Some vl -> sget idx (vslots vl) = Some (Some r) ->
@@ -731,6 +444,307 @@ Qed.
 
 Lemma andb_loc w j v i : (w =? v)%N && (j =? i)%N = true <-> w = v /\ j = i.
 Proof. rewrite Bool.andb_true_iff, !N.eqb_eq. tauto. Qed.
+
+
+Section Excused.
+Variable XE : N -> Prop.
+Local Notation dinv := (dinvE XE).
+Lemma dinv_init n : dinv (dinit n).
+Proof.
+  constructor.
+  - apply inv_init.
+  - intros r v i H; discriminate.
+  - constructor.
+  - intros t r v i H; discriminate.
+  - intros t t' x x' H; discriminate.
+  - intros r c H; discriminate.
+  - intros r H; discriminate.
+Qed.
+
+(* the invariant only looks at the database, the writers, the cache and the file contents *)
+Lemma dinv_same d d' :
+  md d' = md d -> thr d' = thr d -> cache d' = cache d ->
+  (forall v i, content d' v i = content d v i) ->
+  (forall v i, dcontent d' v i = dcontent d v i \/ dcontent d' v i = content d v i) ->
+  dinv d -> dinv d'.
+Proof.
+  intros Em Et Ec Hc Hd [I1 I2 I3 I4 I4' I5 I6].
+  constructor; rewrite ?Em, ?Et, ?Ec; auto.
+  - intros t r v i H. destruct (I4 t r v i H) as [S C]. split; [exact S|]. now rewrite Hc.
+  - intros r c H [v [i [S C]]]. apply (I5 r c H). exists v, i. rewrite Em in S. split; [exact S|]. now rewrite <- Hc.
+  - intros r H HE. destruct (I6 r H HE) as [v [i [S [C D]]]]. exists v, i. rewrite Em. split; [exact S|].
+    rewrite Hc. split; [exact C|]. destruct (Hd v i) as [E|E]; rewrite E; auto.
+Qed.
+
+Lemma dinv_touch r d : dinv d -> dinv (touch r d).
+Proof.
+  apply dinv_same; try (unfold touch; destruct (mem r (fresh d)); reflexivity).
+  intros v i; left. unfold touch; destruct (mem r (fresh d)); reflexivity.
+Qed.
+
+(** * DMeta *)
+Lemma dinv_meta d o : dinv d -> step_ok d (DMeta o) -> dinv (fst (dstep d (DMeta o))).
+Proof.
+  intros I OK. cbn [step_ok dstep] in *. destruct (meta_op o) eqn:M; [|exact I].
+  destruct (step (md d) o) as [m b] eqn:St. cbn [fst md with_md] in *.
+  assert (Em : m = fst (step (md d) o)) by now rewrite St.
+  pose proof (meta_same_slots o (md d) M) as SS. rewrite <- Em in SS.
+  destruct I as [I1 I2 I3 I4 I4' I5 I6].
+  constructor; cbn.
+  - rewrite Em. now apply inv_step.
+  - intros r v i H. apply SS in H. rewrite Em. apply meta_known; eauto.
+  - exact I3.
+  - intros t r v i H. destruct (I4 t r v i H) as [S C]. split; [now apply SS|exact C].
+  - exact I4'.
+  - intros r c H W. apply (I5 r c H). destruct W as [v [i [S C]]]. exists v, i. split; [now apply SS|exact C].
+  - intros r H HE. destruct (OK r H) as [H'|H'].
+    + eapply durable_transfer; [|apply (I6 r H' HE)]. intros v i S. split; [now apply SS|auto].
+    + eapply durable_transfer; [|exact H']. intros v i S. split; [now apply SS|auto].
+Qed.
+
+Lemma dinv_reserve d t r loc : dinv d -> step_ok d (DReserve t r loc) -> dinv (fst (dstep d (DReserve t r loc))).
+Proof.
+  intros I OK. cbn [dstep]. unfold dreserve.
+  destruct (alookup t (thr d)) eqn:T; [exact I|].
+  destruct (reserve r loc (md d)) as [| |s1 v i|o|] eqn:R; cbn [fst]; try exact I.
+  - (* exists *) apply dinv_touch. destruct I as [I1 I2 I3 I4 I4' I5 I6]. constructor; cbn.
+    + now apply inv_add_known.
+    + intros q v i H. unfold slot_at in H. rewrite add_known_vols in H. apply add_known_mem. eapply I2; eauto.
+    + exact I3.
+    + intros t' q v i H. destruct (I4 t' q v i H) as [S C]. split; auto. unfold slot_at. now rewrite add_known_vols.
+    + exact I4'.
+    + intros q c H [v [i [S C]]]. apply (I5 q c H). exists v, i; split; auto.
+      cbn [md with_md] in S. unfold slot_at in *. now rewrite add_known_vols in S.
+    + intros q H HE. unfold refd in H. rewrite add_known_cons, add_known_temps in H.
+      eapply durable_transfer; [|apply (I6 q H HE)]. intros v i S. split; auto.
+      cbn [md with_md]. unfold slot_at. now rewrite add_known_vols.
+  - (* placed *)
+    apply dinv_touch.
+    destruct I as [I1 I2 I3 I4 I4' I5 I6].
+    destruct (reserve_placed r loc (md d) s1 v i I1 R) as [J1 [F [-> [V [vl [G [S Hv]]]]]]].
+    destruct (reserve_facts r (Some (v, i)) (md d) s1 v i I1 R) as [SR [K1 K2]].
+    cbn in OK.
+    pose proof (slot_at_wr (md d) s1 v i (Some r) 1 vl G Hv) as SA. rewrite S in SA.
+    assert (Hold : forall w j q, slot_at (md d) w j = Some (Some q) -> slot_at s1 w j = Some (Some q)).
+    { intros w j q H. rewrite SA. destruct ((w =? v)%N && (j =? i)%N) eqn:E; [|exact H].
+      apply Bool.andb_true_iff in E as [E1 E2]. apply N.eqb_eq in E1, E2; subst.
+      unfold slot_at in H. rewrite G, S in H. discriminate. }
+    assert (Hnew : forall w j q, slot_at s1 w j = Some (Some q) ->
+                     (w = v /\ j = i /\ q = r) \/ slot_at (md d) w j = Some (Some q)).
+    { intros w j q H. rewrite SA in H. destruct ((w =? v)%N && (j =? i)%N) eqn:E; [|now right].
+      apply Bool.andb_true_iff in E as [E1 E2]. apply N.eqb_eq in E1, E2; subst. injection H as <-. now left. }
+    constructor; cbn.
+    + exact J1.
+    + intros q w j H. apply Hnew in H as [[-> [-> ->]]|H]; [exact K1|]. apply K2. eapply I2; eauto.
+    + constructor; [now apply alookup_none_notin|exact I3].
+    + intros t' q w j H. destruct (t' =? t)%N eqn:E.
+      * injection H as <- <- <-. split; [|exact OK]. rewrite SA, !N.eqb_refl. reflexivity.
+      * destruct (I4 t' q w j H) as [S' C]. split; [now apply Hold|exact C].
+    + intros t1 t2 x1 x2 H1 H2 E.
+      assert (Hnot : forall t' x', alookup t' (thr d) = Some x' -> fst (fst x') <> r).
+      { intros t' [[q w] j] H' Heq. cbn in Heq; subst q. destruct (I4 t' r w j H') as [S' _].
+        exact (slot_at_none_vfind (md d) r I1 F w j S'). }
+      destruct (t1 =? t)%N eqn:E1; destruct (t2 =? t)%N eqn:E2.
+      * apply N.eqb_eq in E1, E2; congruence.
+      * injection H1 as <-. cbn in E. exfalso. eapply Hnot; eauto.
+      * injection H2 as <-. cbn in E. exfalso. eapply Hnot; eauto.
+      * eapply I4'; eauto.
+    + intros q c H [w [j [S' C]]]. apply (I5 q c H).
+      apply Hnew in S' as [[-> [-> ->]]|S']; [contradiction|]. exists w, j; auto.
+    + intros q H HE. rewrite (refd_same _ _ q SR) in H.
+      eapply durable_transfer; [|apply (I6 q H HE)]. intros w j S'. split; [now apply Hold|auto].
+Qed.
+
+Lemma dinv_write d t ok : dinv d -> dinv (fst (dstep d (DWrite t ok))).
+Proof.
+  intros I. cbn [dstep]. unfold dwrite.
+  destruct (alookup t (thr d)) as [[[r v] i]|] eqn:T; [|exact I].
+  destruct I as [I1 I2 I3 I4 I4' I5 I6].
+  destruct (I4 t r v i T) as [St Ct].
+  assert (Hothers : forall t' q w j, alookup t' (aremove t (thr d)) = Some (q, w, j) ->
+            alookup t' (thr d) = Some (q, w, j) /\ q <> r /\ ~ (w = v /\ j = i)).
+  { intros t' q w j H. apply alookup_aremove in H as [Hne H]; [|exact I3]. split; [exact H|].
+    assert (Hq : q <> r).
+    { intros ->. apply Hne. eapply (I4' t' t); eauto. }
+    split; [exact Hq|]. intros [-> ->]. destruct (I4 t' q v i H) as [S' _]. congruence. }
+  destruct (ok && is_some (vget v (vols (md d)))) eqn:OK; cbn [fst].
+  - (* data written *)
+    assert (Hc : forall w j, ~ (w = v /\ j = i) ->
+              content (with_files (with_thr d (aremove t (thr d))) (disk d) (kset v i r (pend d))) w j = content d w j).
+    { intros w j H. unfold content; cbn. destruct ((w =? v)%N && (j =? i)%N) eqn:E; [|reflexivity].
+      apply Bool.andb_true_iff in E as [E1 E2]. apply N.eqb_eq in E1, E2. tauto. }
+    constructor; cbn.
+    + exact I1.
+    + exact I2.
+    + now apply aremove_nodup.
+    + intros t' q w j H. destruct (Hothers t' q w j H) as [H' [Hq Hs]]. destruct (I4 t' q w j H') as [S' C'].
+      split; [exact S'|]. unfold content in *; cbn.
+      destruct ((w =? v)%N && (j =? i)%N) eqn:E; [|exact C'].
+      apply Bool.andb_true_iff in E as [E1 E2]. apply N.eqb_eq in E1, E2. tauto.
+    + intros t1 t2 x1 x2 H1 H2 E. apply alookup_aremove in H1 as [_ H1]; [|exact I3].
+      apply alookup_aremove in H2 as [_ H2]; [|exact I3]. eapply I4'; eauto.
+    + intros q c H [w [j [S' C']]]. apply cget_cadd in H as [[-> ->]|[Hq H]]; [reflexivity|].
+      apply (I5 q c H). exists w, j. split; [exact S'|].
+      cbn in S'. unfold content in *; cbn in C'.
+      destruct ((w =? v)%N && (j =? i)%N) eqn:E; [|exact C'].
+      apply Bool.andb_true_iff in E as [E1 E2]. apply N.eqb_eq in E1, E2; subst. congruence.
+    + intros q H HE. destruct (I6 q H HE) as [w [j [S' [C' D']]]]. exists w, j. cbn.
+      assert (Hne : ~ (w = v /\ j = i)). { intros [-> ->]. congruence. }
+      split; [exact S'|]. split; [|exact D'].
+      unfold content in *; cbn. destruct ((w =? v)%N && (j =? i)%N) eqn:E; [|exact C'].
+      apply Bool.andb_true_iff in E as [E1 E2]. apply N.eqb_eq in E1, E2. tauto.
+  - (* failure: rollback *)
+    destruct (rollback r v i (md d)) as [m o] eqn:R. cbn [fst].
+    destruct (rollback_facts r v i (md d) m o I1 St R) as [J1 [SR [K [Hsub Hkeep]]]].
+    constructor; cbn.
+    + exact J1.
+    + intros q w j H. rewrite K. eapply I2. eapply Hsub; eauto.
+    + now apply aremove_nodup.
+    + intros t' q w j H. destruct (Hothers t' q w j H) as [H' [Hq Hs]]. destruct (I4 t' q w j H') as [S' C'].
+      split; [now apply Hkeep|exact C'].
+    + intros t1 t2 x1 x2 H1 H2 E. apply alookup_aremove in H1 as [_ H1]; [|exact I3].
+      apply alookup_aremove in H2 as [_ H2]; [|exact I3]. eapply I4'; eauto.
+    + intros q c H [w [j [S' C']]]. apply (I5 q c H). exists w, j. split; [eapply Hsub; eauto|exact C'].
+    + intros q H HE. rewrite (refd_same _ _ q SR) in H. destruct (I6 q H HE) as [w [j [S' [C' D']]]].
+      exists w, j. cbn. split; [|auto]. apply Hkeep; [exact S'|].
+      intros ->. destruct (slot_injective (md d) w j v i r I1 S' St) as [-> ->]. congruence.
+Qed.
+
+Lemma dinv_sync d : dinv d -> dinv (dsync d).
+Proof.
+  intros [I1 I2 I3 I4 I4' I5 I6]. unfold dsync.
+  constructor; cbn; rewrite ?fold_sync_md, ?fold_sync_thr, ?fold_sync_cache; auto.
+  - intros t r v i H. destruct (I4 t r v i H) as [S C]. split; [exact S|].
+    unfold content in *; cbn. fold (content (fold_left (fun a w => sync_vol w a) (changed d) d) v i).
+    now rewrite fold_sync_content.
+  - intros r c H [v [i [S C]]]. apply (I5 r c H). exists v, i. cbn in S. rewrite fold_sync_md in S.
+    split; [exact S|]. unfold content in C; cbn in C.
+    fold (content (fold_left (fun a w => sync_vol w a) (changed d) d) v i) in C.
+    now rewrite fold_sync_content in C.
+  - intros r H HE. destruct (I6 r H HE) as [v [i [S [C D]]]]. exists v, i. cbn. rewrite fold_sync_md.
+    split; [exact S|]. split.
+    + unfold content; cbn. fold (content (fold_left (fun a w => sync_vol w a) (changed d) d) v i).
+      now rewrite fold_sync_content.
+    + unfold dcontent; cbn. fold (dcontent (fold_left (fun a w => sync_vol w a) (changed d) d) v i).
+      destruct (fold_sync_dcontent (changed d) d v i) as [E|E]; rewrite E; auto.
+Qed.
+
+Lemma dinv_cache d c' :
+  dinv d -> (forall r c, cget r c' = Some c -> written d r -> c = r) -> dinv (with_cache d c').
+Proof.
+  intros [I1 I2 I3 I4 I4' I5 I6] H. constructor; cbn; auto.
+Qed.
+
+Lemma dinv_read d r fail : dinv d -> dinv (fst (dstep d (DRead r fail))).
+Proof.
+  intros I. cbn [dstep]. unfold dread.
+  destruct (cget r (cache d)) as [c|] eqn:Hc; cbn [fst].
+  - apply dinv_cache; [exact I|]. intros q x H W. apply (d_cache d I q x); [|exact W].
+    cbn in H. destruct (q =? r)%N eqn:E.
+    + apply N.eqb_eq in E; subst. injection H as <-. exact Hc.
+    + apply N.eqb_neq in E. now rewrite cget_cdel_other in H.
+  - destruct (locate r (md d)) as [[v i]|] eqn:L; [|exact I].
+    destruct fail; cbn [fst]; [now apply dinv_touch|]. apply dinv_touch.
+    apply dinv_cache; [exact I|]. intros q x H W.
+    apply cget_cadd in H as [[-> ->]|[Hq H]]; [|apply (d_cache d I q x H W)].
+    destruct W as [w [j [S C]]]. apply locate_slot in L; [|apply (d_inv d I)].
+    destruct (slot_injective (md d) w j v i r (d_inv d I) S L) as [-> ->]. exact C.
+Qed.
+
+Lemma dinv_resize_cache d n : dinv d -> dinv (fst (dstep d (DResizeCache n))).
+Proof.
+  intros [I1 I2 I3 I4 I4' I5 I6]. cbn. constructor; cbn; auto.
+  intros r c H W. apply cget_firstn in H. apply (I5 r c H). exact W.
+Qed.
+
+Lemma dinv_crash d : dinv d -> dinv (dcrash d).
+Proof.
+  intros [I1 I2 I3 I4 I4' I5 I6]. constructor; cbn; auto; try discriminate.
+  - constructor.
+  - intros r H HE. destruct (I6 r H HE) as [v [i [S [C D]]]]. exists v, i. cbn.
+    split; [exact S|]. unfold content, dcontent in *; cbn. auto.
+Qed.
+
+Lemma dinv_restart d : dinv d -> dinv (fst (dstep d DRestart)).
+Proof.
+  intros I. cbn [dstep]. destruct (thr d) eqn:T; [|exact I]. cbn [fst].
+  destruct I as [I1 I2 I3 I4 I4' I5 I6]. constructor; cbn; auto; try discriminate.
+  - constructor.
+  - intros r H HE. destruct (I6 r H HE) as [v [i [S [C D]]]]. exists v, i. cbn.
+    split; [exact S|]. unfold content, dcontent in *; cbn. rewrite kget_app.
+    destruct (kget v i (pend d)); auto.
+Qed.
+
+Lemma dinv_prune d : dinv d -> dinv (fst (dstep d DPrune)).
+Proof.
+  intros I. cbn [dstep]. unfold dprune.
+  set (f := fun r => refd (md d) r || mem r (fresh d) || in_flight r (thr d)).
+  destruct (prune_with_ok f (md d) (d_inv d I)) as [m P]. rewrite P. cbn [dres fst].
+  pose proof (inv_prune_with f (md d) _ (d_inv d I) P) as J1.
+  destruct I as [I1 I2 I3 I4 I4' I5 I6].
+  constructor; cbn [md with_md thr cache].
+  - exact J1.
+  - intros q w j H. rewrite slot_at_pruned in H. cbn.
+    destruct (slot_at (md d) w j) as [[q'|]|] eqn:S; try discriminate.
+    destruct (f q'); [|discriminate]. injection H as <-. eapply I2; eauto.
+  - exact I3.
+  - intros t q w j H. destruct (I4 t q w j H) as [S C]. split; [|exact C].
+    rewrite slot_at_pruned, S. unfold f. rewrite (in_flight_spec q _ t w j H), Bool.orb_true_r. reflexivity.
+  - exact I4'.
+  - intros q c H [w [j [S C]]]. apply (I5 q c H). exists w, j. split; [|exact C].
+    cbn [md with_md] in S. rewrite slot_at_pruned in S. destruct (slot_at (md d) w j) as [[q'|]|]; try discriminate.
+    destruct (f q'); [exact S|discriminate].
+  - intros q H HE. assert (H' : refd (md d) q = true) by exact H.
+    destruct (I6 q H' HE) as [w [j [S [C D]]]]. exists w, j. split; [|auto].
+    cbn [md with_md]. rewrite slot_at_pruned, S. unfold f. rewrite H'. reflexivity.
+Qed.
+
+Lemma dinv_shrink d v n : dinv d -> dinv (fst (dstep d (DShrinkT v n))).
+Proof.
+  intros I. cbn [dstep]. unfold dshrink. destruct (shrink v n (md d)) as [m| |] eqn:Sh; cbn [fst]; try exact I.
+  pose proof (inv_shrink v n (md d) m (d_inv d I) Sh) as J1.
+  destruct (shrink_facts v n (md d) m Sh) as [SR [K [Hkeep Hsub]]].
+  destruct I as [I1 I2 I3 I4 I4' I5 I6].
+  constructor; cbn [md with_md with_files thr cache].
+  - exact J1.
+  - intros q w j H. rewrite K. eapply I2. eapply Hsub; eauto.
+  - exact I3.
+  - intros t q w j H. destruct (I4 t q w j H) as [S C]. destruct (Hkeep w j q S) as [S' Hw].
+    split; [exact S'|]. now rewrite (proj1 (content_ktrunc d v n m w j Hw)).
+  - exact I4'.
+  - intros q c H [w [j [S C]]]. apply (I5 q c H). exists w, j.
+    pose proof (Hsub w j q S) as S0. destruct (Hkeep w j q S0) as [_ Hw].
+    split; [exact S0|]. now rewrite (proj1 (content_ktrunc d v n m w j Hw)) in C.
+  - intros q H HE. rewrite (refd_same _ _ q SR) in H. destruct (I6 q H HE) as [w [j [S [C D]]]].
+    destruct (Hkeep w j q S) as [S' Hw]. exists w, j. split; [exact S'|].
+    destruct (content_ktrunc d v n m w j Hw) as [E1 E2]. rewrite E1, E2. auto.
+Qed.
+
+Lemma dinv_remove d v force : dinv d -> step_ok d (DRemoveT v force) -> dinv (fst (dstep d (DRemoveT v force))).
+Proof.
+  intros I OK. cbn in OK. subst force. cbn [dstep]. unfold dremove.
+  destruct (remove_vol v false (md d)) as [m| |] eqn:R; cbn [fst]; try exact I.
+  pose proof (inv_remove_vol v false (md d) m (d_inv d I) R) as J1.
+  destruct (remove_facts v (md d) m (d_inv d I) R) as [SR [K [Hkeep Hsub]]].
+  assert (Hc : forall w j, w <> v ->
+     content (with_files (with_md d m) (knot v (disk d)) (knot v (pend d))) w j = content d w j /\
+     dcontent (with_files (with_md d m) (knot v (disk d)) (knot v (pend d))) w j = dcontent d w j).
+  { intros w j Hw. unfold content, dcontent; cbn. now rewrite !kget_knot_other by exact Hw. }
+  destruct I as [I1 I2 I3 I4 I4' I5 I6].
+  constructor; cbn [md with_md with_files thr cache].
+  - exact J1.
+  - intros q w j H. rewrite K. eapply I2. eapply Hsub; eauto.
+  - exact I3.
+  - intros t q w j H. destruct (I4 t q w j H) as [S C]. destruct (Hkeep w j q S) as [S' Hw].
+    split; [exact S'|]. now rewrite (proj1 (Hc w j Hw)).
+  - exact I4'.
+  - intros q c H [w [j [S C]]]. apply (I5 q c H). exists w, j.
+    pose proof (Hsub w j q S) as S0. destruct (Hkeep w j q S0) as [_ Hw].
+    split; [exact S0|]. now rewrite (proj1 (Hc w j Hw)) in C.
+  - intros q H HE. rewrite (refd_same _ _ q SR) in H. destruct (I6 q H HE) as [w [j [S [C D]]]].
+    destruct (Hkeep w j q S) as [S' Hw]. exists w, j. split; [exact S'|].
+    destruct (Hc w j Hw) as [E1 E2]. rewrite E1, E2. auto.
+Qed.
 
 (* one successful migrateSector + swap *)
 Lemma dinv_move d v idx r to m vl tl :
@@ -787,8 +801,8 @@ Proof.
     apply cget_cadd in H as [[-> ->]|[Hq H]]; [reflexivity|].
     apply (I5 q c H). apply Hnew in S' as [[-> _]|[_ S']]; [congruence|].
     exists w, j. split; [exact S'|]. destruct (Hold w j q S' Hq) as [_ C2]. congruence.
-  - intros q H. unfold refd in H. cbn in H. rewrite Hc, Ht in H. fold (refd (md d) q) in H.
-    destruct (I6 q H) as [w [j [S' [C' D']]]].
+  - intros q H HE. unfold refd in H. cbn in H. rewrite Hc, Ht in H. fold (refd (md d) q) in H.
+    destruct (I6 q H HE) as [w [j [S' [C' D']]]].
     destruct (N.eq_dec q r) as [->|Hq].
     + exists (fst to), (snd to). split; [rewrite SA, !N.eqb_refl; reflexivity|].
       change (content d2 (fst to) (snd to) = r /\ dcontent d2 (fst to) (snd to) = r).
@@ -890,4 +904,16 @@ Theorem dinv_runs l : forall d, dinv d -> steps_ok d l -> dinv (druns d l).
 Proof.
   induction l as [|o t IH]; intros d I OK; [exact I|]. destruct OK as [O1 O2].
   cbn. apply IH; [now apply dinv_step|exact O2].
+Qed.
+
+End Excused.
+
+(* the invariant of the runs without explicit deletions: nothing is excused *)
+Definition dinv : dstate -> Prop := dinvE (fun _ => False).
+
+(* excusing more roots weakens the invariant *)
+Lemma dinvE_weaken (E E' : N -> Prop) d : (forall r, E r -> E' r) -> dinvE E d -> dinvE E' d.
+Proof.
+  intros H [I1 I2 I3 I4 I4' I5 I6]. constructor; try assumption.
+  intros r Hr HE. apply (I6 r Hr). intros He. apply HE. now apply H.
 Qed.
